@@ -19,7 +19,10 @@ def encode(obj):
 
 
 def decode(cache, records_per_chunk):
-    partially_decoded = json.loads(cache, object_hook=postprocess)
+    try:
+        partially_decoded = json.loads(cache, object_hook=postprocess)
+    except ValueError as e:
+        raise CachingError("invalid or incomplete cache file") from e
 
     return decode_hierarchy(partially_decoded, records_per_chunk=records_per_chunk)
 
